@@ -85,14 +85,14 @@ def _stripe_guard_by_interpretation(db, f, ctx, N, arr, idxs):
 
 
 
-def _truncate_by_interpretation(db, f):
+def _truncate_by_interpretation(db, f, maxn=3):
     """DensityMatrixPart::truncate(eps) interpreted on every weight vector of 0..3 states whose weights are below / equal to /
     above eps, for both values the flag may have had before.  Returns [(weights, prior, after, wrong)] where wrong means: some
     weight is above eps and the block is not retained afterwards."""
     from pv.summ import Interp, Obj, Thrown
     import itertools
     out = []
-    for n in range(4):
+    for n in range(maxn + 1):
         for w in itertools.product((0, 1, 2), repeat=n):
             for prior in (True, False):
                 this = Obj("DensityMatrixPart", **{DMP + "::weights": [sp.Rational(x, 2) for x in w], DMP + "::retained": prior})
@@ -332,13 +332,13 @@ def body(chk, db, cfgname):
     verdict = "ok" if good else "bad"
     interp = None
     try:
-        interp = _truncate_by_interpretation(db, f)
+        interp = _truncate_by_interpretation(db, f, 5 if chk.tier == "thorough" else 3)
     except AnalysisBroken:
         interp = None
     if interp is not None:
         wrong = [x for x in interp if x[3]]
         if not wrong:
-            r2.ok(site, f.loc(), "after truncate(eps) the block is retained whenever some weight exceeds eps, whatever the flag was before (body interpreted on %d weight vectors of up to 3 states below / at / above eps, both prior flag values)" % len(interp), cfgname)
+            r2.ok(site, f.loc(), "after truncate(eps) the block is retained whenever some weight exceeds eps, whatever the flag was before (body interpreted on %d cases: weight vectors of up to %d states below / at / above eps, both prior flag values)" % (len(interp), 5 if chk.tier == "thorough" else 3), cfgname)
         else:
             w, prior, after, _ = wrong[0]
             r2.bad(site, f.loc(), "with weights %s relative to the tolerance and the flag previously %s, the block is discarded although a state has weight above the tolerance (%d of %d interpreted cases)" % (
